@@ -13,7 +13,7 @@ checks = {
    text="Held on every explored history step: branch query multiset, metadata listing, per-object count/key range/sortedness, seek-index tiling and pool-key order of the scan agree with a reference model that learns object contents straight from storage; checked from the acting handle and a cold one, with object-store and file semantics. Exploration is the right level: histories × inputs × configurations are unbounded; short histories over a 9-op alphabet are enumerated exhaustively.",
    note="trusts the harness model (internal/lk/model.go), its own key order for the generated key domain (numbers < strings < null/missing) and the ZNG reader used to read stored objects (C01); built without -race (single client; see DESIGN.md §2.2)"),
  "C17": dict(level="fault_enumeration", design="DESIGN.md §3 C17",
-   technique="runtime fault injection: fail-stop crash enumerated at every storage operation (and every write prefix / half-applied write on file semantics) of the victim operation, on an instrumented storage engine; recovery oracle = cold reopen, before-or-after state, fixed follow-up workload",
+   technique="runtime fault injection: fail-stop crash enumerated at every storage operation (and every write prefix / half-applied write on file semantics) of the victim operation, on an instrumented storage engine; recovery oracle = cold reopen, before-or-after state (row contents per branch plus the vector objects the branch lists, each decoded and compared with its data object), fixed follow-up workload",
    text="For every explored (history, victim operation, back end) the crash point is enumerated over the victim's whole storage trace; after each crash a cold handle must open the lake, read every pool and branch, observe exactly the before- or after-state (as observed on uncrashed clones) and complete a fixed follow-up workload; double crashes are sampled. Fault enumeration is the right level because the quantifier is 'every storage operation of every mutation'.",
    note="fail-stop model (the crashing operation and all later ones have no effect, optionally a half-applied write); durable, ordered storage; the file back end is a model of pkg/storage/file.go (truncate-then-write Put, create-then-fill PutIfNotExists); built without -race"),
  "C08": dict(level="exploration", design="DESIGN.md §3 C08",
@@ -30,7 +30,7 @@ checks = {
    note="interleavings at storage-operation granularity (not instruction granularity); clients are separate lake handles; starvation of the journal's bounded retry loop counts as a reported failure; scheduled parts run without -race, the shared-handle stress part with it"),
  "C13": dict(level="exploration", design="DESIGN.md §3 C13",
    technique="runtime monitor: model-based re-query of every commit after every later history step; reader/writer schedules under the operation-level scheduler with a chain-position window oracle; race detector on a shared-handle stress part",
-   text="(a) every commit created in a history reads the same at every later step (until vacuumed); (b) under every explored reader/writer schedule the reader returns exactly the contents of one commit of main's chain, not older than the last commit acknowledged before it started and not newer than the last started before it returned; (c) free-running readers and writers on one handle under the race detector.",
+   text="(a) every commit created in a history reads the same at every later step (until vacuumed); (b) under every explored reader/writer schedule the reader returns exactly the contents of one commit of main's chain, not older than the last commit acknowledged before it started (each pair also runs strictly one-after-the-other, so that "acknowledged before" is established) and not newer than the last started before it returned; (c) free-running readers and writers on one handle under the race detector.",
    note="storage-operation granularity; the reader's caches are warmed by a prior query on its handle"),
  "C15": dict(level="exploration", design="DESIGN.md §3 C15",
    technique="runtime monitor: object-level reference model of merge/revert over exhaustive two-branch histories and random multi-branch histories, every branch re-read from a cold handle after every operation",
@@ -65,9 +65,9 @@ checks = {
    text="Exhaustive over all triples of the universe for 8 comparator configurations; sort output is a stable non-decreasing permutation identical for every memory limit (0..k spill runs forced and counted); merge output is sorted and multiset-equal to its inputs under adversarial batch boundaries.",
    note="universe is curated, not all values; keyless sort on records not demanded"),
  "C07": dict(level="exploration", design="DESIGN.md §3 C07",
-   technique="runtime monitor: differential oracle as-analyzed plan vs optimized plan over grammar-generated programs with an order-state and over the repo's ztest/valid.zed corpus; DAG diff classifies which rewrites fired",
+   technique="runtime monitor: differential oracle as-analyzed plan vs optimized plan over grammar-generated programs with an order-state (file/stream inputs with declared sort keys, and pool scans on an in-memory lake: raw PoolScan vs lister/pruner/slicer/scanner with the pushed filter) and over the repo's ztest/valid.zed corpus; DAG diff classifies which rewrites fired",
    text="For every generated and corpus program the optimized plan's output equals the as-analyzed plan's output in the program's comparison mode, with equal error-ness and termination; non-trivial cases are those whose optimized DAG differs.",
-   note="file/stream inputs only (no lake inputs); trusts internal/prog's order-state for the comparison mode"),
+   note="trusts internal/prog's order-state for the comparison mode; lake inputs are single-pool scans of pools keyed on one field (asc/desc) with overlapping objects; a hang is judged by goroutine state, not by time"),
  "C10": dict(level="exploration", design="DESIGN.md §3 C10",
    technique="runtime monitor: reference-model oracle (harness groups rows by key (type,bytes); per-group aggregates from the ungrouped, unspilled, direct aggregate; nested-loop join) across permutations, spill limits (spill-run hook counts), declared sort directions and partials DAGs",
    text="Group-by emits exactly one row per distinct key with the aggregate over exactly that group's rows, and join emits the nested-loop pair set, independently of input order, spilling, declared sortedness and partial composition.",
